@@ -160,4 +160,13 @@ example :
       (run (Pmin := listPQ minLe) (Pmax := listPQ maxLe) (dist := absDist) ⟨2, 2, 4, 3, 10, true, true, true⟩ Index.empty demoOps)
       6 3).map (fun h => (h.id, h.score))) = [(14, 1), (11, 1), (13, 3)] := by decide
 
+
+/-- **searches share nothing they write** (regenerated from `index/hnsw.go`): in the read path of the
+index — `Search`, `greedyClosestNeighbor`, `searchLevel`, `selectNeighbors*` — every assignment goes to
+a local variable (or into a local map / slice) and nothing is called but read-only accessors and the
+search's own local queues. Hence what the theorems of this file say about one search holds for each
+of any number of simultaneous searches on an index nobody writes (seeded changes C01-D / C07-D keep
+the visited marks on the vertices: simultaneous searches then return an id twice). -/
+theorem search_path_writes_nothing_shared : Generated.searchPathWritesNothingShared = true := by decide
+
 end Anndb.C07
